@@ -27,7 +27,11 @@ RULE = ("model tie: the extracted Coq model of Hasher (hasher_inputs) vs the rea
         "order of the listed files) vs the extracted filelist_total; end to end: TorrentFile(...) and `torrentfile create` on generated trees "
         "(1..7 files, depth <= 3, sizes from the boundary set {0,1,B-1,B,B+1,pl-1,pl,pl+1,k*pl+-1,...} plus random), the written "
         "metafile is decoded by the reference strict decoder and files/length/piece length/pieces are compared with reference BEP 3 "
-        "hashing of the tree as it is on disk.  A case is non-trivial when it is distinct and hits at least one boundary class.")
+        "hashing of the tree as it is on disk.  Routes of the end-to-end cases in turn: library with progress 0|1|2 -- a fresh create, the "
+        "public assemble() called AGAIN on the same object before write() with the tree unchanged, and assemble() again after one "
+        "file grew / shrank / was added / was removed (judged against the tree on disk at that moment) -- and the command line with "
+        "--prog 0|1|2 and --quiet; a third of the unit-correspondence cases are re-assembled too.  Names include runs of dots inside "
+        "a name (wait....bin, disc..2, ..hidden, a..).  A case is non-trivial when it is distinct and hits at least one boundary class.")
 TRUSTED_BASE = [
     "Coq 8.16.1 kernel; theorems closed under the global context; SHA-1 is an arbitrary function H1 in every theorem",
     "hand-written model Model/Hasher.v tied to hasher.py by differential execution (extracted OCaml vs the real iterator)",
